@@ -43,18 +43,11 @@ impl Eq for CloseChannelEndResult {}
 //@item core/src/message/close_channel_end_reply.rs struct CloseChannelEndReply
 
 // the messages the handlers send; VersionedMessage::new / with_version take `impl Into<Message>` in the real code
-pub trait IntoMessage {}
-impl IntoMessage for ItemReceived {}
-impl IntoMessage for AddChannelCapacity {}
-impl IntoMessage for ChannelEndClosed {}
-impl IntoMessage for CloseChannelEndReply {}
-
-impl VersionedMessage {
-    #[verifier::external_body]
-    pub fn new<T: IntoMessage>(msg: T, version: Option<ProtocolVersion>) -> (r: Self) { unimplemented!() }
-    #[verifier::external_body]
-    pub fn with_version<T: IntoMessage>(msg: T, version: ProtocolVersion) -> (r: Self) { unimplemented!() }
-}
+// protocol minor version that introduced each message kind sent by these handlers (0 = base protocol 1.14)
+impl IntoMessage for ItemReceived { open spec fn min_minor() -> u32 { 0 } }
+impl IntoMessage for AddChannelCapacity { open spec fn min_minor() -> u32 { 0 } }
+impl IntoMessage for ChannelEndClosed { open spec fn min_minor() -> u32 { 0 } }
+impl IntoMessage for CloseChannelEndReply { open spec fn min_minor() -> u32 { 0 } }
 
 // ---- Channel: real data types, methods ASSUMED with the contracts verified in unit broker_channel ------------
 //@item broker/src/broker/channel.rs const LOW_CAPACITY
@@ -79,9 +72,12 @@ impl ConnectionState {
     //@fn-from broker_conn_state broker/src/broker/conn_state.rs ConnectionState::remove_sender
     //@fn-from broker_conn_state broker/src/broker/conn_state.rs ConnectionState::remove_receiver
 
-    // sending only pushes into the connection's outgoing queue (interior mutability); no broker state changes
+    // sending only pushes into the connection's outgoing queue (interior mutability); no broker state changes.
+    // Precondition: the message kind exists in the connection's negotiated protocol version (see handler_prelude.rs).
     #[verifier::external_body]
-    pub(crate) fn send(&self, msg: VersionedMessage) -> (r: Result<(), ()>) { unimplemented!() }
+    pub(crate) fn send(&self, msg: VersionedMessage) -> (r: Result<(), ()>)
+        requires self.version.allows(msg.min_minor())
+    { unimplemented!() }
 }
 
 // ---- Broker -------------------------------------------------------------------------------------------
